@@ -159,9 +159,12 @@ func makeStructInfo(name string, names []string, t reflect.Type) (info structInf
 func (dec *Decoder) ReadStruct(t reflect.Type) {
 	name := dec.ReadSafeString()
 	count := dec.ReadCount()
-	names := make([]string, count)
-	for i := 0; i < count; i++ {
-		dec.decodeString(stringType, dec.NextByte(), &names[i])
+	// the count comes from the wire: the names are appended as they really arrive, up to the first error
+	names := make([]string, 0, sizeHint(count))
+	for i := 0; i < count && dec.Error == nil; i++ {
+		var name string
+		dec.decodeString(stringType, dec.NextByte(), &name)
+		names = append(names, name)
 	}
 	dec.Skip()
 	dec.ref = append(dec.ref, makeStructInfo(name, names, t))
